@@ -62,11 +62,8 @@ func (im0 *im0data) Get(addr uint16) uint8 {
 }
 
 func (im0 *im0data) Set(addr uint16, value uint8) {
-	if addr-im0.start <= im0.end-im0.start {
-		// invalid opepration, nothing to do.
-		return
-	}
-	// delegate to base Memory for out of range.
+	// im0data only supplies the instruction bytes of the interrupting device.
+	// Writes always go to base Memory, even when addr is in the range.
 	im0.base.Set(addr, value)
 }
 
